@@ -19,11 +19,13 @@ Tup(s) == [i \in 1..Len(s) |-> s[i]]
 (* ---- binary layout (family 18, serial version 1): 2 preamble longs; total and counters as 8-byte LE ---- *)
 LE(x, n) == [i \in 1..n |-> (x \div (256 ^ (i - 1))) % 256]
 Val8(x) == LE(x, 4) \o <<0, 0, 0, 0>>        \* non-negative values below 2^31
+\* a counter of a signed type may be negative (negative weights): 8 bytes, two's complement (sign-extended)
+Val8S(x) == IF x >= 0 THEN Val8(x) ELSE [i \in 1..8 |-> 255 - Val8(-x - 1)[i]]
 EncCM(st, sh) ==
   LET empty == st.total = 0 IN
   <<2, 1, 18, IF empty THEN 1 ELSE 0, 0, 0, 0, 0>> \o LE(st.w, 4) \o <<st.d>> \o sh \o <<0>>
   \o (IF empty THEN <<>>
-      ELSE Val8(st.total) \o [i \in 1..(8 * st.d * st.w) |-> Val8(st.tab[(i - 1) \div 8])[((i - 1) % 8) + 1]])
+      ELSE Val8(st.total) \o [i \in 1..(8 * st.d * st.w) |-> Val8S(st.tab[(i - 1) \div 8])[((i - 1) % 8) + 1]])
 
 TInit == l = 1 /\ obj = <<>> /\ gh = <<>>
 TrRun == IsEv("Run") /\ obj' = <<>> /\ gh' = <<>>
@@ -83,6 +85,29 @@ TrChk ==
   /\ (On("C12") /\ "img" \in DOMAIN Ev) =>
         [i \in 1..Len(Ev.img) |-> Ev.img[i]] = EncCM(obj[Ev.id], [i \in 1..2 |-> Ev.sh[i]])
   /\ On("C18") => Ev.len = 16 + (IF obj[Ev.id].total = 0 THEN 0 ELSE 8 * (1 + obj[Ev.id].d * obj[Ev.id].w))
+  /\ UNCHANGED <<obj, gh>>
+
+\* signed counter types also take negative weights: the total grows by |wt|, the counters by wt (no
+\* one-sided guarantee is claimed for such streams; state, image and size are)
+UpdateS(st, b, wt) ==
+  IF wt = 0 THEN st
+  ELSE [st EXCEPT !.total = @ + (IF wt < 0 THEN -wt ELSE wt),
+                  !.tab = [i \in DOMAIN st.tab |->
+                             IF \E r \in 1..st.d : Idx(st, r, b) = i THEN st.tab[i] + wt ELSE st.tab[i]]]
+TrUpdS ==
+  /\ IsEv("CUpdS")
+  /\ obj' = [obj EXCEPT ![Ev.id] = UpdateS(@, Tup(Ev.b), Ev.wt)]
+  /\ gh' = [gh EXCEPT ![Ev.id].scaled = TRUE]
+  /\ (On("C08") \/ On("C12")) => Ev.tot = obj'[Ev.id].total
+TrChkS ==
+  /\ IsEv("CChkS")
+  /\ LET st == obj[Ev.id] IN
+     /\ (On("C08") \/ On("C12") \/ On("C11")) =>
+          /\ [i \in 1..Len(Ev.table) |-> Ev.table[i]] = [i \in 1..(st.d * st.w) |-> st.tab[i - 1]]
+          /\ Ev.tot = st.total
+     /\ On("C12") => [i \in 1..Len(Ev.img) |-> Ev.img[i]] = EncCM(st, [i \in 1..2 |-> Ev.sh[i]])
+     /\ On("C11") => Ev.rt_same
+     /\ On("C18") => Ev.len = 16 + (IF st.total = 0 THEN 0 ELSE 8 * (1 + st.d * st.w))
   /\ UNCHANGED <<obj, gh>>
 
 TrRT ==
@@ -167,7 +192,7 @@ TrWChk ==
 
 TrPanic == IsEv("Panic") /\ FALSE /\ UNCHANGED <<obj, gh>>
 
-TNext == TrRun \/ TrNew \/ TrUpd \/ TrMerge \/ TrHalve \/ TrDecay \/ TrChk \/ TrRT \/ TrMergeTry
+TNext == TrRun \/ TrNew \/ TrUpdS \/ TrChkS \/ TrUpd \/ TrMerge \/ TrHalve \/ TrDecay \/ TrChk \/ TrRT \/ TrMergeTry
          \/ TrWNew \/ TrWUpd \/ TrWMerge \/ TrWHalve \/ TrWDecay \/ TrWChk \/ TrPanic
 TSpec == TInit /\ [][TNext]_tvars
 
